@@ -452,7 +452,17 @@ func (s *Server) attachClient(cl *Client, listener string) error {
 		return packets.ErrBadUsernameOrPassword
 	}
 
-	atomic.AddInt64(&s.Info.ClientsConnected, 1)
+	if atomic.AddInt64(&s.Info.ClientsConnected, 1) > s.Options.Capabilities.MaximumClients {
+		// other connections passed the test above at the same time and took the last places
+		atomic.AddInt64(&s.Info.ClientsConnected, -1)
+		if cl.Properties.ProtocolVersion < 5 {
+			s.SendConnack(cl, packets.ErrServerUnavailable, false, nil)
+		} else {
+			s.SendConnack(cl, packets.ErrServerBusy, false, nil)
+		}
+
+		return packets.ErrServerBusy
+	}
 	defer atomic.AddInt64(&s.Info.ClientsConnected, -1)
 
 	s.hooks.OnSessionEstablish(cl, pk)
